@@ -23,7 +23,11 @@ def values_of(dump):
     return out
 
 
-def export_to_text(problem):
+def export_to_text(problem, exporter=None, out=None):
+    """exporter / out given: the SAME ProblemExporter object writes to the SAME path as for the problems before"""
+    if exporter is not None:
+        exporter.export_problem(problem, out)
+        return out.read_text()
     path = write_tmp("", suffix=".exported.pddl")
     try:
         ProblemExporter().export_problem(problem, path)
@@ -32,10 +36,19 @@ def export_to_text(problem):
         path.unlink()
 
 
-def one(domain, text):
+def parse_text(domain, text, src=None):
+    """src given: the text is written over whatever the file at that path held before"""
+    if src is None:
+        return parse_problem_text(domain, text)
+    with open(src, "w", newline="") as fh:
+        fh.write(text)
+    return ProblemParser(src, domain).parse_problem()
+
+
+def one(domain, text, exporter=None, src=None, out=None):
     r = {"nums": number_table(text), "reprs": {}}
     try:
-        p1 = parse_problem_text(domain, text)
+        p1 = parse_text(domain, text, src)
         r["dump1"] = problem_dump(p1)
     except Exception as e:  # noqa
         r["raised1"] = exc(e)
@@ -43,14 +56,15 @@ def one(domain, text):
     cur = p1
     for k in ("2", "3"):
         try:
-            t = export_to_text(cur)
+            t = export_to_text(cur, exporter, out)
             r["export" + k] = t
             r["nums"].update(number_table(t))
         except Exception as e:  # noqa
             r["export_raised" + k] = exc(e)
             break
         try:
-            cur = parse_problem_text(domain, t)
+            # the reused path is parsed as the exporter left it
+            cur = ProblemParser(out, domain).parse_problem() if out is not None else parse_problem_text(domain, t)
             r["dump" + k] = problem_dump(cur)
         except Exception as e:  # noqa
             r["raised" + k] = exc(e)
@@ -73,10 +87,17 @@ def world(job):
     except Exception as e:  # noqa
         return {"domain_raised": exc(e)}
     out = {"vocab": vocab(domain), "results": []}
+    exporter = src = dst = None
+    if job.get("reuse"):
+        # one ProblemExporter object, one source path and one export path for all problems of the job
+        exporter, src, dst = ProblemExporter(), write_tmp("", suffix=".src.pddl"), write_tmp("", suffix=".out.pddl")
     for pr in job["problems"]:
         text = Path(pr["path"]).read_text() if isinstance(pr, dict) else pr
-        r = one(domain, text)
+        r = one(domain, text, exporter, src, dst)
         if isinstance(pr, dict):
             r["text"] = text
         out["results"].append(r)
+    for f in (src, dst):
+        if f is not None:
+            f.unlink()
     return out
